@@ -268,15 +268,16 @@ PROPS["C17"] = dict(
     verus_units=["watchdog"],
     kani=["watchdog"],
     engine="kani-inject",
-    technique="modular: Verus contract on median (all N), Kani full-domain proofs of calculate_height_target (band+quorum, median stubbed), compare (target stubbed) and calculate_target per concrete explorer count",
-    level_text="median(values) is proved by Verus for EVERY number of heights to be the middle element of the sorted multiset (mean of the two middle ones for an even count), "
-               "hence order independent; for every explorer count N = 0..=6 and 8 Kani proves on the real code, over fully symbolic heights/thresholds/quorum, that the "
-               "height target is the median iff at least min_explorers heights lie in the band around it; that compare passes exactly the successful fetches and the "
-               "configured thresholds on and maps (canister height, target) to NotEnoughData/Behind/Ahead/Ok as stated; and that the flag target is Enabled exactly for Ok",
-    level_note="heights in [behind threshold, 2^62) (the property's own domain; beyond it the repo's i64 casts wrap); the bound is the CONCRETE number of explorer "
-               "entries, enumerated up to the largest shipped list; composition of the three modular results is by contract (stubs), not re-proved end to end; "
-               "storage::insert_block_info REPLACES a provider's entry (Verus, closure body slice: final map == old map.insert(provider, info)), so a failed fetch erases the "
-               "height of an earlier round; that every provider's slot is written in every round is in async fetch code (not decided)",
+    technique="Verus contracts on median, calculate_height_target, compare, calculate_target, synchronise_api_access and insert_block_info (all for ANY number of explorers); Kani full-domain cross-checks per concrete explorer count",
+    level_text="unbounded deductive proofs on the real code, for EVERY number of explorer results: median(values) is the middle element of the sorted multiset (mean of the two "
+               "middle ones for an even count), hence order independent; calculate_height_target yields that median iff at least min_explorers heights were fetched and at least "
+               "min_explorers of them lie in the band around it; compare collects exactly the successful fetches of the list it is given, computes the target from them and maps "
+               "(canister height, target) to NotEnoughData / Behind / Ahead / Ok by the inclusive band [-behind, +ahead]; the flag target is Enabled exactly for Ok, Disabled for "
+               "Behind/Ahead, none for NotEnoughData; synchronise_api_access changes the canister's flag exactly when there is a target and it differs from the flag read back; "
+               "storing a provider's result REPLACES the earlier one (so stale heights cannot survive a failed fetch). For N = 0..=6 and 8 Kani re-proves the band/quorum, compare and "
+               "flag rules over fully symbolic values (with concrete counterexamples on failure)",
+    level_note="heights below 2^62 and thresholds up to 10^6 (the property's own domain; beyond it the repo's i64 casts wrap); three iterator/Option pipelines are desugared "
+               "mechanically (R17); that every provider's slot is written in every round is in async fetch code (not decided)",
     explanation="std's sort makes a monolithic CBMC proof infeasible beyond 3 elements, hence the modular split with Verus carrying the sort-dependent part.",
     unverified_links=[
         "watchdog/src/fetch.rs fetch_all_providers_data (async, join_all) writing every provider's BlockInfo each round",
